@@ -46,25 +46,31 @@ impl PartialOrd for IStr {
         Some(self.cmp(o))
     }
 }
-impl Ord for IStr {
-    fn cmp(&self, o: &Self) -> Ordering {
-        let mut i = 0;
-        while i < SMAX {
-            let a = if i < self.n as usize { Some(self.b[i]) } else { None };
-            let b = if i < o.n as usize { Some(o.b[i]) } else { None };
-            match (a, b) {
-                (None, None) => return Ordering::Equal,
-                (None, Some(_)) => return Ordering::Less,
-                (Some(_), None) => return Ordering::Greater,
-                (Some(x), Some(y)) => {
-                    if x != y {
-                        return x.cmp(&y);
-                    }
-                }
-            }
-            i += 1;
+impl IStr {
+    fn at(&self, i: usize) -> Option<u8> {
+        if i < self.n as usize {
+            Some(self.b[i])
+        } else {
+            None
         }
-        Ordering::Equal
+    }
+}
+impl Ord for IStr {
+    /// byte-wise lexicographic order (= `str` order); straight-line over the SMAX = 4 positions
+    fn cmp(&self, o: &Self) -> Ordering {
+        let c0 = self.at(0).cmp(&o.at(0));
+        if c0 != Ordering::Equal || self.at(0).is_none() {
+            return c0;
+        }
+        let c1 = self.at(1).cmp(&o.at(1));
+        if c1 != Ordering::Equal || self.at(1).is_none() {
+            return c1;
+        }
+        let c2 = self.at(2).cmp(&o.at(2));
+        if c2 != Ordering::Equal || self.at(2).is_none() {
+            return c2;
+        }
+        self.at(3).cmp(&o.at(3))
     }
 }
 impl From<String> for IStr {
